@@ -19,7 +19,13 @@ LEVEL_TEXT = (
     "inputs - or the source is exactly the unchanged one, for which the theorem exhibits the finite value returned on a "
     "saturated witness; the matrix assembly turns such values into NaN or the 2*max substitute. Tied to /repo by regeneration "
     "of the formulas (T2) and tables (T1) and by a differential run of dna.DistMatrix against the model and, independently, "
-    "against the published formulas evaluated on each pair's comparable sites. Float rounding is trusted: see 'partial'.")
+    "against the published formulas evaluated on each pair's comparable sites. (d) Link to C18 (Props/C07Inv.lean), over the "
+    "reals: for JC69, K80, F81, F84 and TN93 the published estimator - and the regenerated Go estimator, for t >= 0 - applied to "
+    "the expected proportions of differences / transitions / transversions / A<->G / C<->T of two stationary sequences "
+    "separated by time t under the model's P(t) returns exactly t; P(t) is the closed form proved in C18 to be exp(tQ) for the "
+    "textbook rate matrix (JC, K2P, F84), and for F81 / TN93 a symbolic eigen-system proved here to diagonalise the rate matrix "
+    "regenerated from models/dna/{f81,tn93}.go; the Jin-Nei gamma forms invert the gamma mixture of P(rt) (moment generating "
+    "function of the gamma distribution proved from Mathlib's Gamma integral). Float rounding is trusted: see 'partial'.")
 LEVEL_NOTE = (
     "Trusted: Lean kernel; tools/extract (go/ast translation of the Distance/InitModel bodies - cross-checked because the "
     "generated text is executed against the Go code on every run); harness + oracle; float64 rounding, math.Log/math.Pow "
@@ -29,7 +35,7 @@ LEVEL_NOTE = (
     "tree violates C07 in six recorded ways (known_findings.jsonl, proposed_fixes/c07-*.diff); the check passes without them "
     "on the patched tree.")
 TECHNIQUE = "Lean 4 proof (induction over sites; Mathlib real analysis on regenerated code; IEEE special-value interpretation) + differential correspondence"
-LEAN_MODULES = ["Gv.Props.C07"]
+LEAN_MODULES = ["Gv.Props.C07", "Gv.Props.C07Inv", "Gv.Props.C07InvGamma"]
 REQUIRED_THEOREMS = ["Gv.Props.C07." + n for n in [
     "countDiffs_symmetric", "countDiffsWithGaps_symmetric", "countMutations_symmetric",
     "countDiffsWithInternalGaps_symmetric_of_max_comm", "countDiffsWithInternalGaps_symmetric",
@@ -45,13 +51,38 @@ REQUIRED_THEOREMS = ["Gv.Props.C07." + n for n in [
     "f81_undefined_never_small_or_witness", "f84_undefined_never_small_or_witness",
     "tn93_undefined_never_small_or_witness",
     "undefined_never_small_matrix", "substitute_repaired_pos_or_nan", "substitute_asIs_zero_witness",
+]] + ["Gv.Props.C07Inv." + n for n in [
+    # expected observables of a stationary pair (site pattern (i,j) has probability pi_i P_ij(t))
+    "expDiff_eq_ts_add_tv",
+    # JC69 / K80: against the closed forms jcP, k2pP of C18 (= exp(tQ) there)
+    "jc_expected_p", "jc_inverts_expected_p", "jc_inverts_textbook_model", "jc_code_inverts_expected_p",
+    "k2p_expected_PQ", "k2p_inverts_expected_PQ", "k2p_inverts_textbook_model", "k2p_code_inverts_expected_PQ",
+    # Tamura-Nei family: closed-form observables for the F84 eigenvectors and any three eigenvalues
+    "tnP_expected", "f84P_eq_tnP",
+    "f84_expected_PQ", "f84_log_args", "f84_inverts_expected_PQ", "f84_inverts_textbook_model",
+    "f84_code_inverts_expected_PQ",
+    "f81Q_eq_f84Q_zero", "f81_P_closed_form", "f81_expected_p", "f81_inverts_expected_p",
+    "f81_inverts_textbook_model", "f81_code_inverts_expected_p",
+    "tn93_eigen_RDL", "tn93P_eq_exp", "tn93_closed_form_laws", "tn93_log_args", "tn93_inverts_expected",
+    "tn93_inverts_textbook_model", "tn93_code_inverts_expected",
+]] + ["Gv.Props.C07InvGamma." + n for n in [
+    # rate heterogeneity: spectral weights e^y (one rate) / (1 - y/alpha)^(-alpha) (gamma rates), uniformly in g
+    "nl_wt", "gamma_mgf", "tnW_false_eq_tnP", "tnW_true_eq_integral",
+    "tnA_expected", "tnA_tn93_args", "tnA_f84_args", "tnA_f81_arg",
+    "jc_rates_invert", "k2p_rates_invert", "f81_rates_invert", "f84_rates_invert", "tn93_rates_invert",
+    "jcP_eq_tnW", "k2pP_eq_tnW",
 ]]
 PARTIAL = [
     "float64 rounding, overflow and the last-ulp behaviour of math.Log / math.Pow are not modelled: the real-valued theorems are about the regenerated formulas over R, the run compares Go and Lean Float with relative tolerance 1e-9 (raw and p-distance bit-exact); pairs whose logarithm argument is within 1e-9 of 0 without being 0 are not judged",
     "signed zeros and the NaN/Inf special cases of math.Max are not modelled (weights are finite and positive); FVal has no signed zero and no overflow",
     "the special-value theorems have the form 'guarded for all inputs OR the recorded witness of the unchanged source'; which disjunct holds is reported per run (SOURCE-VERSION line, evidence.coverage.source_version_seen)",
     "f84/tn93 theorems assume positive base frequencies (tn93 gamma and f84 also that they sum to 1); degenerate frequencies are exercised by the run only",
-    "inversion theorems against the C18 transition probabilities (jc_inverts_expected_p ...) are not part of this check",
+    "inversion theorems (Props/C07Inv.lean, Props/C07InvGamma.lean): JC69, K80, F81, F84, TN93 applied to the expected "
+    "observables pi_i*P_ij(t) of their model return t - published formula, regenerated Go formula for t >= 0 (one rate), and "
+    "against exp(tQ) of the textbook rate matrix; the gamma variants (published formulas only, not the regenerated Go code) "
+    "against the gamma mixture E_r[P(r t)], r ~ Gamma(shape alpha, mean 1), identified entry by entry with the eigen-assembly "
+    "whose weights are the gamma moment generating function (gamma_mgf, tnW_true_eq_integral). Base frequencies are assumed "
+    "positive with sum 1 and kappa > 0 (K80, TN93) / kappa >= 0 (F84): the parameter domain of the models",
     "K2P / F84 / TN93 count a difference between ambiguity codes that is neither a definite transition nor a definite transversion (e.g. M vs G) in neither class; their observed proportion of differences is P + Q (= p for unambiguous residues); a defined value above NT_DIST_OVER = 100000 is accepted as saturated (substitute, NaN or the value)",
     "countMutations is not observable alone through the public API: it is compared through K2P/F84/TN93 values (tolerance 1e-9), the three difference counters bit-exactly through rawdist/pdist",
 ]
@@ -329,7 +360,20 @@ def source_version():
     return out
 
 
+def _audit_memo(modules):
+    """the memoising axiom audit (Audit/AuditMemo.lean: same output as Audit/Audit.lean, several times faster on
+    Mathlib-importing modules; see driver/props/c18.py)"""
+    import re
+    rc, out = common.run(["lake", "env", "lean", "--run", "Audit/AuditMemo.lean"] + modules, cwd=common.LEAN, timeout=1200)
+    ths = []
+    for m in re.finditer(r"THEOREM (\S+) (\S+) axioms=\[(.*?)\] (OK|FORBIDDEN)", out):
+        axs = [a.strip() for a in m.group(3).split(",") if a.strip()]
+        ths.append({"module": m.group(1), "name": m.group(2), "axioms": axs, "ok": m.group(4) == "OK"})
+    return rc, ths, out
+
+
 def check(tier, seed):
+    common.audit = _audit_memo
     rc = common.generic_check(sys.modules[__name__], tier, seed)
     sv = source_version()
     print("SOURCE-VERSION property=C07 " + " ".join("%s=%s" % (k, "as-is" if v["state"].startswith("present") else (
